@@ -82,6 +82,7 @@ Ltac break_match_hyp H :=
 
 Ltac step_inv H :=
   unfold step, at_send, can_write, after_call in H; cbv zeta in H;
+  cbn [v_reg_first v_oneshot v_watch_closes v_ka_ctx fixed] in H;
   break_match_hyp H;
   try (injection H as <-).
 
@@ -110,4 +111,50 @@ Ltac sproj :=
        set_callers set_started set_pending set_inbound set_in_end set_wire set_wpc set_app set_done
        set_queue_closed set_transport_closed set_ka set_ticker_stopped set_injected set_taken
        with_caller watch_exit
-       c_kind c_gor c_seq c_frame c_pc c_ctx c_wrote c_mail set_pc set_ctx set_wrote set_mail] in *.
+       c_kind c_gor c_seq c_frame c_pc c_ctx c_wrote c_mail set_pc set_ctx set_wrote set_mail
+       v_reg_first v_oneshot v_watch_closes v_ka_ctx fixed orb] in *.
+
+(* the Write calls of callers (generic_nacks of Watch left out) *)
+Definition wire_calls (l : list wrec) : list (nat * bytes) :=
+  flat_map (fun w => match w with WCall c f => [(c, f)] | WNack _ => [] end) l.
+Lemma wire_calls_app a b : wire_calls (a ++ b) = wire_calls a ++ wire_calls b.
+Proof. apply flat_map_app. Qed.
+
+(* ------------------------------------------------------------ shared invariants of the repaired code *)
+(* D27: only Watch closes the queue, on its way out *)
+Lemma queue_inv s : reachable fixed s -> queue_closed s = true -> wpc s = WExited.
+Proof.
+  revert s. reach_ind.
+  - cbn. discriminate.
+  - intros s e s' _ IH H. destruct e; step_inv H; sproj; auto;
+      try (intros Q; try (specialize (IH Q)); congruence);
+      try (intros _; specialize (IH eq_refl); discriminate IH).
+Qed.
+
+
+(* D32: a waiter is in the table under its own sequence number, with an empty
+   channel, between its registration and its deferred unregister *)
+Definition registered_pc (p : cpc) : Prop :=
+  match p with PRegistered | PWriting | PWaiting | PLeaving _ => True | _ => False end.
+
+Lemma waiter_inv s : reachable fixed s ->
+  (forall q c, pending s q = Some c ->
+     c_seq (callers s c) = q /\ c_mail (callers s c) = None /\ registered_pc (c_pc (callers s c)) /\
+     submit_like (c_kind (callers s c)) = true) /\
+  (forall c, c_pc (callers s c) = PNone \/ c_pc (callers s c) = PStarted -> c_mail (callers s c) = None).
+Proof.
+  revert s. reach_ind.
+  - cbn. split; [discriminate | reflexivity].
+  - intros s e s' _ [IH1 IH2] H.
+    destruct e; step_inv H; sproj; (split; [intros q0 c0 | intros c0]); upd_cases; sproj;
+      try (intros P; try discriminate P; try (injection P as <-);
+           try (destruct (IH1 _ _ P) as (I1 & I2 & I3 & I4));
+           repeat match goal with E : c_pc _ = _ |- _ => rewrite E in * end; cbn in *;
+           repeat split; try tauto; try congruence; auto; fail);
+      try (intros [P|P]; try discriminate P; apply IH2; auto; fail).
+    + (* Watch hands a response to waiter n: another key cannot point to n *)
+      intros P. destruct (IH1 _ _ P) as (I1 & _). 
+      match goal with E : pending s (snd ?p) = Some _ |- _ => destruct (IH1 _ _ E) as (J1 & _) end. congruence.
+    + match goal with E : pending s (snd ?p) = Some _ |- _ => destruct (IH1 _ _ E) as (_ & _ & J3 & _) end.
+      intros [P|P]; rewrite P in J3; cbn in J3; contradiction.
+Qed.
